@@ -249,6 +249,61 @@ def run(ctx: Ctx, rs: RuleSet, tier: str):
            'emits del / assignment / update_callable / add_tag / remove_tag',
            ctx.loc(cc, cc.node), nontrivial=False)
 
+  # ---- which paths get a moved_ alias: every value-replacing operation
+  rule = 'EXH.modified-paths'
+  rs.declare(rule, 'the paths whose old values need an alias include the '
+             'target of every operation that replaces or removes a value', 1)
+  tag_ops = set()
+  for name, q in c10.op_classes(ctx).items():
+    ap = ctx.p.find_method(q, 'apply')
+    if ap is not None and any(
+        isinstance(c, ast.Call) and unparse(c.func).endswith(
+            ('add_tag', 'remove_tag')) for c in walk_function(ap.node)):
+      tag_ops.add(name)
+  value_ops = set(c10.op_classes(ctx)) - tag_ops
+  aliased = [c.args[0].id for c in ctx.calls(ff) if unparse(c.func).endswith(
+      '_add_path_aliases') and c.args and isinstance(c.args[0], ast.Name)]
+  if len(set(aliased)) != 1 or len(value_ops) < 3:
+    raise AnalysisError('fiddler_from_diff: the modified-paths set (argument '
+                        'of _add_path_aliases) or the operation classes were '
+                        'not found')
+  mp = aliased[0]
+  defs = [n for n in walk_function(ff.node) if isinstance(n, ast.Assign) and
+          any(isinstance(t, ast.Name) and t.id == mp for t in n.targets)]
+  covered = None
+  why = ''
+  if len(defs) == 1:
+    v = defs[0].value
+    if isinstance(v, ast.Call) and unparse(v.func) in ('set', 'frozenset') and (
+        len(v.args) == 1):
+      v = v.args[0]
+    if isinstance(v, (ast.ListComp, ast.SetComp, ast.GeneratorExp)) and len(
+        v.generators) == 1 and unparse(v.generators[0].iter).endswith(
+            '.changes') and unparse(v.elt) == (
+                unparse(v.generators[0].target) + '.target'):
+      covered = set(value_ops) | tag_ops
+      for cond in v.generators[0].ifs:
+        neg = False
+        t = cond
+        while isinstance(t, ast.UnaryOp) and isinstance(t.op, ast.Not):
+          t, neg = t.operand, not neg
+        names = c10.isinstance_names(t)
+        if not names or not isinstance(t, ast.Call):
+          covered = None  # a filter this rule cannot interpret
+          break
+        covered = covered - names if neg else covered & names
+  if covered is None:
+    raise AnalysisError(
+        f'fiddler_from_diff: cannot interpret how `{mp}` is computed')
+  missing = sorted(value_ops - covered)
+  rs.check(not missing, rule, f'{ff.qualname}:{mp}',
+           f'`{mp}` holds the targets of {sorted(covered & value_ops)}'
+           if not missing else
+           f'`{mp}` leaves out the targets of {missing}: a value under such a '
+           'path that the diff still refers to gets no `moved_` alias, and the '
+           'emitted fiddler reads it after the statement that removed or '
+           'replaced it', ctx.loc(ff, defs[0]))
+
   # ---- names from the namespace
   rule = 'WMC.generated-names'
   rs.declare(rule, 'emitted variable names come from the namespace '
